@@ -517,7 +517,6 @@ func c13LateHistories(c *fw.Ctx, m *rec.Rec, kind string, hs [][]int) {
 	}
 }
 
-
 // c13RawChild: the slot a container has for an embedded message or payload holds a pre-encoded util.Buffer (what a
 // relay or a cache puts there), with a length field of its own that need not say what the container thinks. The
 // container is sized and encoded repeatedly: the answers must agree and the buffer must still hold the bytes it was
